@@ -172,6 +172,12 @@ pub trait DateRoll {
     where
         Self: Sized,
     {
+        #[cfg(rateslib_verif)]
+        if crate::verif::trace::active() {
+            let r = crate::verif::trace::suspended(|| self.roll(date, modifier, settlement));
+            crate::verif::trace::dateroll(self, &[*date, r], serde_json::json!({"f":"roll","d":crate::verif::trace_day(date),"m":format!("{:?}", modifier),"s":settlement,"o":"ok","r":crate::verif::trace_day(&r)}));
+            return r;
+        }
         if settlement {
             roll_with_settlement(date, self, modifier)
         } else {
@@ -187,6 +193,12 @@ pub trait DateRoll {
     /// *Note*: if the given `date` is a non-business date adding or subtracting 1 business
     /// day is equivalent to the rolling forwards or backwards, respectively.
     fn lag(&self, date: &NaiveDateTime, days: i8, settlement: bool) -> NaiveDateTime {
+        #[cfg(rateslib_verif)]
+        if crate::verif::trace::active() {
+            let r = crate::verif::trace::suspended(|| self.lag(date, days, settlement));
+            crate::verif::trace::dateroll(self, &[*date, r], serde_json::json!({"f":"lag","d":crate::verif::trace_day(date),"n":days,"s":settlement,"o":"ok","r":crate::verif::trace_day(&r)}));
+            return r;
+        }
         if self.is_bus_day(date) {
             return self.add_bus_days(date, days, settlement).unwrap();
         }
@@ -217,6 +229,12 @@ pub trait DateRoll {
     where
         Self: Sized,
     {
+        #[cfg(rateslib_verif)]
+        if crate::verif::trace::active() {
+            let r = crate::verif::trace::suspended(|| self.add_days(date, days, modifier, settlement));
+            crate::verif::trace::dateroll(self, &[*date, r], serde_json::json!({"f":"add_days","d":crate::verif::trace_day(date),"n":days,"m":format!("{:?}", modifier),"s":settlement,"o":"ok","r":crate::verif::trace_day(&r)}));
+            return r;
+        }
         let new_date = if days < 0 {
             *date - Days::new(u64::from(days.unsigned_abs()))
         } else {
@@ -236,6 +254,16 @@ pub trait DateRoll {
         days: i8,
         settlement: bool,
     ) -> Result<NaiveDateTime, PyErr> {
+        #[cfg(rateslib_verif)]
+        if crate::verif::trace::active() {
+            let r = crate::verif::trace::suspended(|| self.add_bus_days(date, days, settlement));
+            let (o, rd, ds) = match &r {
+                Ok(x) => ("ok", crate::verif::trace_day(x), vec![*date, *x]),
+                Err(_) => ("err", 0, vec![*date]),
+            };
+            crate::verif::trace::dateroll(self, &ds, serde_json::json!({"f":"add_bus","d":crate::verif::trace_day(date),"n":days,"s":settlement,"o":o,"r":rd}));
+            return r;
+        }
         if self.is_non_bus_day(date) {
             return Err(PyValueError::new_err(
                 "Cannot add business days to an input `date` that is not a business day.",
@@ -279,6 +307,12 @@ pub trait DateRoll {
     where
         Self: Sized,
     {
+        #[cfg(rateslib_verif)]
+        if crate::verif::trace::active() {
+            let r = crate::verif::trace::suspended(|| self.add_months(date, months, modifier, roll, settlement));
+            crate::verif::trace::dateroll(self, &[*date, r], serde_json::json!({"f":"add_months","d":crate::verif::trace_day(date),"mo":months,"m":format!("{:?}", modifier),"roll":crate::verif::trace_rollday(roll),"s":settlement,"o":"ok","r":crate::verif::trace_day(&r)}));
+            return r;
+        }
         // refactor roll day
         let roll_ = match roll {
             RollDay::Unspecified {} => RollDay::Int { day: date.day() },
